@@ -45,4 +45,10 @@ def handleHyps (st : St) (op : String) (j : Json) : Option (D (St × Json)) :=
     return (st, ok (Json.mkObj [("det", Json.bool (schemaDet S)), ("live", Json.bool (schemaLive S)),
       ("inRange", Json.bool (schemaInRange S)),
       ("textLoop", Json.bool (schemaTextLoop S)), ("compatTrans", Json.bool (schemaCompatTrans S))]))
+  | "defaultType" => some do
+    -- `ContentMatch.default_type` at state `q` of node type `t`'s automaton
+    let S ← getSchema st j
+    let t ← nat (← field j "type")
+    let q ← nat (← field j "state")
+    return (st, ok (eOptNat (S.defaultType (S.dfa t) q)))
   | _ => none
